@@ -13,6 +13,9 @@ func (fr *Frame) assumeAxioms(st *State) {
 		if !ax.Axiom {
 			continue
 		}
+		if pk := fr.pkgTypes(); pk != nil && ax.Scope != "*" && ax.Scope != pk.Name() {
+			continue // axioms are given only to the units of the package they were written for
+		}
 		names := map[string]tval{}
 		var vars []Term
 		ok := true
